@@ -385,6 +385,9 @@ func checkProperty(P *Program, verifDir, prop, tier string, opts VerifyOpts) int
 	}
 	replays := map[string]*ReplayFile{}
 	var rmu sync.Mutex
+	if os.Getenv("IKEVERIF_NOREPLAY") != "" {
+		picks = nil // (self-test runs only need the verdict)
+	}
 	for bn, p := range picks {
 		wg.Add(1)
 		go func(bn string, p pick) {
